@@ -1,10 +1,106 @@
-(* C11/Props.v -- the property theorems, and nothing else. *)
+(* C11/Props.v -- the property theorems, and nothing else.  Each is closed by [exact] of a lemma of Proofs.v
+   and followed by Print Assumptions.
+
+   Vocabulary (Spec.v): [tagged_concat ps] = every input spike of every probe, probe after probe in file order, each
+   tagged with (probe index, index within the probe) and carrying its time, amplitude, template id, cluster id;
+   [wf ps] = at least one probe, every probe has >= 1 spike, its four per-spike arrays have equal length, ids >= 0;
+   [coff_spec ps k] / [toff_spec ps k] = sum over the probes before k of (largest cluster / template id + 1);
+   [lt3] = strictly increasing in (time, probe index, index within the probe), lexicographically. *)
 From Coq Require Import ZArith List Bool Sorted Permutation Lia.
 From PV Require Import Base.NpSort Base.NpSearch C11.Model C11.Spec C11.Proofs.
 Import ListNotations.
 Open Scope Z_scope.
 
-Theorem C11_dict_get_set : forall (V : Type) (d : list (Z * V)) k v k',
-  dict_get (dict_set k v d) k' = if k' =? k then Some v else dict_get d k'.
-Proof. exact (@dict_get_set). Qed.
-Print Assumptions C11_dict_get_set.
+(* The merge succeeds and its output spikes are, position by position (Payload), a permutation M of the input spikes:
+   every (probe, index) tag occurs exactly once. *)
+Theorem C11_permutation : forall (A V F : Type) (ps : list (probe A V F)), wf ps ->
+  exists m M, merge ps = Some m /\ Payload ps m M /\ Permutation M (tagged_concat ps) /\
+              NoDup (map tagpair (tagged_concat ps)) /\ NoDup (map tagpair M).
+Proof. exact (@thm_permutation). Qed.
+Print Assumptions C11_permutation.
+
+(* M is strictly increasing in (time, probe, index): times non-decreasing, and the two corollaries below *)
+Theorem C11_sorted_stable : forall (A V F : Type) (ps : list (probe A V F)), wf ps ->
+  exists m M, merge ps = Some m /\ Payload ps m M /\ Permutation M (tagged_concat ps) /\
+              StronglySorted (@lt3 A) M /\ StronglySorted Z.le (m_times m).
+Proof. exact (@thm_sorted_stable). Qed.
+Print Assumptions C11_sorted_stable.
+
+(* two spikes of the same probe whose times are in order keep their original order in the merged output *)
+Theorem C11_same_probe_order : forall (A : Type) (M : list (tagged A)), StronglySorted (@lt3 A) M ->
+  forall j1 j2 s1 s2, nth_error M j1 = Some s1 -> nth_error M j2 = Some s2 ->
+  t_probe s1 = t_probe s2 -> (t_idx s1 < t_idx s2)%nat -> t_time s1 <= t_time s2 -> (j1 < j2)%nat.
+Proof. exact (@thm_same_probe_order). Qed.
+Print Assumptions C11_same_probe_order.
+
+(* simultaneous spikes of different probes are ordered by probe index *)
+Theorem C11_ties_by_probe : forall (A : Type) (M : list (tagged A)), StronglySorted (@lt3 A) M ->
+  forall j1 j2 s1 s2, nth_error M j1 = Some s1 -> nth_error M j2 = Some s2 ->
+  t_time s1 = t_time s2 -> (t_probe s1 < t_probe s2)%nat -> (j1 < j2)%nat.
+Proof. exact (@thm_ties_by_probe). Qed.
+Print Assumptions C11_ties_by_probe.
+
+(* each merged spike carries its own time and amplitude; cluster id = original + cluster offset of its probe,
+   template id = original + template offset of its probe; the registered offsets are the declarative ones *)
+Theorem C11_payload : forall (A V F : Type) (ps : list (probe A V F)), wf ps ->
+  exists m M, merge ps = Some m /\ Permutation M (tagged_concat ps) /\
+    m_times m = map (@t_time A) M /\ m_amps m = map (@t_amp A) M /\
+    m_clu m = map (fun s => t_clu s + coff_spec ps (t_probe s)) M /\
+    m_tmpl m = map (fun s => t_tmpl s + toff_spec ps (t_probe s)) M /\
+    m_coffs m = map (coff_spec ps) (seq 0 (length ps)) /\ m_toffs m = map (toff_spec ps) (seq 0 (length ps)).
+Proof. exact (@thm_payload). Qed.
+Print Assumptions C11_payload.
+
+(* the id intervals [offset_j, offset_j + max_j] and [offset_k, ...] of two probes j < k are disjoint (the first ends
+   strictly below the start of the second) and contain the shifted ids of their probe; clusters and templates *)
+Theorem C11_disjoint : forall (A V F : Type) (ps : list (probe A V F)), Forall wf_probe ps ->
+  forall j k pj pk, (j < k)%nat -> nth_error ps j = Some pj -> nth_error ps k = Some pk ->
+  (coff_spec ps j + zmaxl (p_clu pj) < coff_spec ps k /\
+   (forall c, In c (p_clu pj) -> coff_spec ps j <= c + coff_spec ps j <= coff_spec ps j + zmaxl (p_clu pj)) /\
+   (forall c, In c (p_clu pk) -> coff_spec ps k <= c + coff_spec ps k)) /\
+  (toff_spec ps j + zmaxl (p_tmpl pj) < toff_spec ps k /\
+   (forall c, In c (p_tmpl pj) -> toff_spec ps j <= c + toff_spec ps j <= toff_spec ps j + zmaxl (p_tmpl pj)) /\
+   (forall c, In c (p_tmpl pk) -> toff_spec ps k <= c + toff_spec ps k)).
+Proof. exact (@thm_disjoint). Qed.
+Print Assumptions C11_disjoint.
+
+(* ids of different probes never collide: two input spikes with the same merged cluster (template) id belong to the
+   same probe and have the same original id *)
+Theorem C11_no_collision : forall (A V F : Type) (ps : list (probe A V F)), Forall wf_probe ps -> forall s1 s2,
+  In s1 (tagged_concat ps) -> In s2 (tagged_concat ps) ->
+  (t_clu s1 + coff_spec ps (t_probe s1) = t_clu s2 + coff_spec ps (t_probe s2) ->
+     t_probe s1 = t_probe s2 /\ t_clu s1 = t_clu s2) /\
+  (t_tmpl s1 + toff_spec ps (t_probe s1) = t_tmpl s2 + toff_spec ps (t_probe s2) ->
+     t_probe s1 = t_probe s2 /\ t_tmpl s1 = t_tmpl s2).
+Proof. exact (@thm_no_collision). Qed.
+Print Assumptions C11_no_collision.
+
+(* cluster_probes has one entry per merged cluster id 0 .. total-1; entry (c + offset_k) is k for every id c in
+   0 .. max_k of probe k (used or not), and every entry arises that way (so c - offset is the original id) *)
+Theorem C11_cluster_probes : forall (A V F : Type) (ps : list (probe A V F)), wf ps ->
+  exists m, merge ps = Some m /\ Z.of_nat (length (m_cprobes m)) = coff_spec ps (length ps) /\
+    (forall k p c, nth_error ps k = Some p -> 0 <= c <= zmaxl (p_clu p) ->
+                   nth_error (m_cprobes m) (Z.to_nat (c + coff_spec ps k)) = Some (Z.of_nat k)) /\
+    (forall c k', nth_error (m_cprobes m) c = Some k' ->
+       exists k p, k' = Z.of_nat k /\ nth_error ps k = Some p /\ 0 <= Z.of_nat c - coff_spec ps k <= zmaxl (p_clu p)).
+Proof. exact (@thm_cluster_probes). Qed.
+Print Assumptions C11_cluster_probes.
+
+(* ---- non-vacuity: a concrete merge of three probes (ties inside and across probes, a one-spike probe, gaps,
+        curated clusters, TSV in some) ---- *)
+Definition ex_ps : list (probe Z Z Z) :=
+  [ mkprobe [1; 3; 3; 7] [10; 20; 30; 40] [0; 2; 2; 1] [0; 4; 2; 1] [Some (mkmeta 5 [(0, 100); (4, 101)]); None; None];
+    mkprobe [0; 3; 9] [50; 60; 70] [1; 0; 1] [1; 0; 1] [Some (mkmeta 5 [(1, 102)]); None; Some (mkmeta 6 [(0, 7)])];
+    mkprobe [3] [80] [0] [3] [None; None; None] ].
+Example C11_ex_merge : merge ex_ps = Some (mkmerged
+  [0; 1; 3; 3; 3; 3; 7; 9] [50; 10; 20; 30; 60; 80; 40; 70] [4; 0; 2; 2; 3; 5; 1; 4] [6; 0; 4; 2; 5; 10; 1; 6]
+  [0; 0; 0; 0; 0; 1; 1; 2; 2; 2; 2] [0; 5; 7] [0; 3; 5]
+  [Some (mkmeta 5 [(0, 100); (4, 101); (6, 102)]); None; Some (mkmeta 6 [(5, 7)])]).
+Proof. vm_compute. reflexivity. Qed.
+Example C11_ex_wf : wf ex_ps.
+Proof.
+  split; [discriminate|]. repeat constructor; cbn; try discriminate; intros c H;
+    repeat (destruct H as [<-|H]; [lia|]); contradiction.
+Qed.
+Example C11_ex_offsets : map (coff_spec ex_ps) [0; 1; 2; 3]%nat = [0; 5; 7; 11] /\ map (toff_spec ex_ps) [0; 1; 2]%nat = [0; 3; 5].
+Proof. vm_compute. split; reflexivity. Qed.
